@@ -1358,21 +1358,11 @@ func ruleR156(c *Ctx) {
 			onlyEmpty bool
 		}
 		sites := map[*types.Var][]site{}
-		inspectNoLit(f.Body, func(m ast.Node) bool {
-			as, ok := m.(*ast.AssignStmt)
-			if !ok || len(as.Rhs) != 1 {
-				return true
-			}
-			cl, ok := unparen(as.Rhs[0]).(*ast.CallExpr)
-			if !ok || !isBuiltin(in, cl, "append") {
-				return true
-			}
-			fv := fieldOf(in, as.Lhs[0])
-			if fv == nil {
-				return true
-			}
+		// record a creation site (an append to the chain list, or the call of a helper that makes it) with what
+		// controls it
+		record := func(fv *types.Var, at ast.Node) {
 			onlyEmpty := false
-			for _, pc := range polarConds(p, as) {
+			for _, pc := range polarConds(p, at) {
 				be, ok := unparen(pc.cond).(*ast.BinaryExpr)
 				if !ok {
 					continue
@@ -1391,7 +1381,43 @@ func ruleR156(c *Ctx) {
 					}
 				}
 			}
-			sites[fv] = append(sites[fv], site{as, onlyEmpty})
+			sites[fv] = append(sites[fv], site{at, onlyEmpty})
+		}
+		inspectNoLit(f.Body, func(m ast.Node) bool {
+			switch x := m.(type) {
+			case *ast.AssignStmt:
+				if len(x.Rhs) != 1 {
+					return true
+				}
+				cl, ok := unparen(x.Rhs[0]).(*ast.CallExpr)
+				if !ok || !isBuiltin(in, cl, "append") {
+					return true
+				}
+				if fv := fieldOf(in, x.Lhs[0]); fv != nil {
+					record(fv, x)
+				}
+			case *ast.CallExpr:
+				// a helper of the same type that opens the chain: its call sites are the creation sites
+				cf := p.byObj[callee(in, x)]
+				if cf == nil || cf == f || cf.Pkg != f.Pkg || cf.Body == nil || cf.Obj == nil || recvNamed(cf.Obj) == nil || recvNamed(cf.Obj) != recvNamed(f.Obj) {
+					return true
+				}
+				cin := info(cf)
+				var opened *types.Var
+				inspectNoLit(cf.Body, func(z ast.Node) bool {
+					if a2, ok := z.(*ast.AssignStmt); ok && len(a2.Rhs) == 1 {
+						if c2, ok := unparen(a2.Rhs[0]).(*ast.CallExpr); ok && isBuiltin(cin, c2, "append") {
+							if fv := fieldOf(cin, a2.Lhs[0]); fv != nil {
+								opened = fv
+							}
+						}
+					}
+					return true
+				})
+				if opened != nil {
+					record(opened, x)
+				}
+			}
 			return true
 		})
 		for fv, ss := range sites {
@@ -1402,7 +1428,7 @@ func ruleR156(c *Ctx) {
 					free = true
 				}
 			}
-			c.Check(free, f, ss[0].at, "opening a chain in "+fv.Name(), what, fmt.Sprintf("%d site(s) append to %s; one that does not require the list to be empty: %v", len(ss), fv.Name(), free))
+			c.Check(free, f, ss[0].at, "opening a chain in "+fv.Name(), what, fmt.Sprintf("%d site(s) open a chain in %s; one that does not require the list to be empty: %v", len(ss), fv.Name(), free))
 		}
 	}
 	if n == 0 {
@@ -3304,6 +3330,42 @@ func ruleR182(c *Ctx) {
 			}
 			return true
 		})
+		// a helper that is handed the index: its parameter is a chain number as well
+		if f.Obj != nil {
+			sig := f.Obj.Type().(*types.Signature)
+			for _, h := range p.Funcs {
+				if h.Body == nil || h.Pkg != f.Pkg {
+					continue
+				}
+				hin := info(h)
+				hChains := map[types.Object]bool{}
+				inspectNoLit(h.Body, func(m ast.Node) bool {
+					if as, ok := m.(*ast.AssignStmt); ok && len(as.Rhs) == 1 && len(as.Lhs) == 2 {
+						if cl, ok := unparen(as.Rhs[0]).(*ast.CallExpr); ok {
+							if fn := callee(hin, cl); fn != nil && fn.Name() == "Satisfy" && fn.Pkg() != nil && fn.Pkg().Path() == pathLogic {
+								if id, ok := as.Lhs[1].(*ast.Ident); ok {
+									hChains[objOf(hin, id)] = true
+								}
+							}
+						}
+					}
+					return true
+				})
+				if len(hChains) == 0 {
+					continue
+				}
+				inspectNoLit(h.Body, func(m ast.Node) bool {
+					if cl, ok := m.(*ast.CallExpr); ok && callee(hin, cl) == f.Obj {
+						for i, a := range cl.Args {
+							if id, ok := unparen(a).(*ast.Ident); ok && hChains[objOf(hin, id)] && i < sig.Params().Len() {
+								chainVars[sig.Params().At(i)] = true
+							}
+						}
+					}
+					return true
+				})
+			}
+		}
 		if len(chainVars) == 0 {
 			continue
 		}
@@ -3352,14 +3414,34 @@ func ruleR183(c *Ctx) {
 	what := "one goroutine per timer definition forwards every firing to the event ingress. On a shared bus the forward reports an error as soon as any one subscriber does, although the process took the event: a forwarder that gives up on that error strands the timer goroutine in its next send, and no later firing of the cycle reaches anybody"
 	n := 0
 	for _, f := range p.Funcs {
-		if f.Body == nil || f.Pkg.PkgPath != pathTimer || f.Lit == nil {
+		if f.Body == nil || f.Pkg.PkgPath != pathTimer {
 			continue
 		}
-		// goroutine literals that call ConsumeEvent in a loop
-		if cl, ok := p.Parent(f.Lit).(*ast.CallExpr); !ok {
-			continue
-		} else if _, isGo := p.Parent(cl).(*ast.GoStmt); !isGo {
-			continue
+		// goroutine roots that call ConsumeEvent in a loop: a literal launched with go, or a named function that
+		// some go statement of the package launches
+		if f.Lit != nil {
+			if cl, ok := p.Parent(f.Lit).(*ast.CallExpr); !ok {
+				continue
+			} else if _, isGo := p.Parent(cl).(*ast.GoStmt); !isGo {
+				continue
+			}
+		} else {
+			launched := false
+			for _, h := range p.Funcs {
+				if h.Body == nil || h.Pkg != f.Pkg || f.Obj == nil {
+					continue
+				}
+				hin := info(h)
+				inspectNoLit(h.Body, func(m ast.Node) bool {
+					if gs, ok := m.(*ast.GoStmt); ok && callee(hin, gs.Call) == f.Obj {
+						launched = true
+					}
+					return true
+				})
+			}
+			if !launched {
+				continue
+			}
 		}
 		in := info(f)
 		inspectNoLit(f.Body, func(m ast.Node) bool {
@@ -3621,10 +3703,17 @@ func ruleR186(c *Ctx) {
 				return true
 			}
 			tv, has := in.Types[rs.Results[0]]
-			if !has || tv.Value == nil || tv.Value.String() != "false" {
+			negPresent := false
+			if u, isNot := unparen(rs.Results[0]).(*ast.UnaryExpr); isNot && u.Op == token.NOT {
+				if id, isId := unparen(u.X).(*ast.Ident); isId && present[objOf(in, id)] {
+					// `return !present`: false exactly when the definition names an operation
+					negPresent = true
+				}
+			}
+			if !negPresent && (!has || tv.Value == nil || tv.Value.String() != "false") {
 				return true
 			}
-			noOp, hasDef := false, false
+			noOp, hasDef := false, negPresent
 			var visit func(e ast.Expr, pos bool)
 			visit = func(e ast.Expr, pos bool) {
 				e = unparen(e)
